@@ -5,6 +5,7 @@ prefixes/suffixes of task, group and other namespace names), multi-part files, c
 stream (cycles of length 1-5, dangling required/optional inputs, duplicate input names).  Compared with the Lean builder model:
 tasks, parameters, ordered inputs, keys, object sharing, error/no error.  Oracle (executable reference + independent
 reachability): node set, edge set, the three closure queries for all pairs, construction error for cyclic/dangling declarations."""
+import json
 from tcv import builder, pipeline as pl, refbuild
 from tcv.quiet import quiet
 
@@ -64,6 +65,15 @@ def check_case(ctx, spec, root, tag, model_out):
         ctx.diverge('builder:error-kind', full_case, impl['error'], model_out['error'])
     elif 'ok' in impl:
         a, m = builder.canon_tasks(impl['ok']), builder.canon_tasks(model_out['ok'])
+        # the ORDER in which a pattern input (`~…`) lists the tasks it expands to is the iteration order of the task table at that moment —
+        # no part of what C08 states (the edges are a set); the model's order differs from the code's in rare shapes (a re-created task
+        # table): for classes that declare a pattern the input tables are compared as sets, and a differing order is counted, not reported
+        pat = {pl.pyname(cid) for cid, c in spec['classes'].items() if any(i['by'] == 'name' and str(i['ref']).startswith('~') for i in c['inputs'])}
+        pat |= {cid for cid, c in spec['classes'].items() if any(i['by'] == 'name' and str(i['ref']).startswith('~') for i in c['inputs'])}
+        for x, y in zip(a, m):
+            if x.get('cid') in pat and x['inputs'] != y['inputs'] and sorted(map(json.dumps, x['inputs'])) == sorted(map(json.dumps, y['inputs'])):
+                ctx.count('pattern-expansion-order-differs')
+                y['inputs'] = x['inputs']
         if a != m:
             k = next((i for i, (x, y) in enumerate(zip(a, m)) if x != y), min(len(a), len(m)))
             ctx.diverge('builder:tasks', full_case, a[k] if k < len(a) else None, m[k] if k < len(m) else None)
@@ -370,6 +380,35 @@ def homonym_probe(ctx, root):
             ctx.fail('an input was bound to a task whose name differs in letter case', case, {'value': v})
     except Exception as e:      # noqa
         ctx.fail('a chain with task names that differ only in letter case cannot be built', case, f'{type(e).__name__}: {e}'[:200])
+
+    # (iii) declarations inherited through `class Meta(Parent.Meta)`: the inputs the parent's Meta declares are the child's too
+    class Up(Task):
+        class Meta:
+            name = 'up'
+
+        def run(self) -> int:
+            return 5
+
+    class ParentT(Task):
+        class Meta:
+            name = 'parent_t'
+            input_tasks = [Up]
+
+        def run(self, up) -> int:
+            return up
+
+    class ChildT(ParentT):
+        class Meta(ParentT.Meta):
+            name = 'child_t'
+    case = {'probe': 'inputs declared in an inherited Meta'}
+    ctx.case(case); ctx.count('homonym-probe:inherited-meta')
+    try:
+        ch = Config(root / 'homonym0', name='c', data={'tasks': [Up, ChildT]}).chain()
+        ins = sorted(str(k) for k, v in ch['child_t'].input_tasks.items() if hasattr(v, 'fullname'))
+        if ins != ['up'] or not ch.is_task_dependent_on('child_t', 'up'):
+            ctx.fail('a task lacks the input edge its (inherited) Meta declares', case, {'inputs': ins})
+    except Exception as e:      # noqa
+        ctx.fail('a chain with a task whose Meta inherits its declarations cannot be built', case, f'{type(e).__name__}: {e}'[:200])
 
     class Features(Task):
         class Meta:
